@@ -403,13 +403,13 @@ def cases(rng, tier):
     quick = tier == "quick"
     for c in tt_cases():
         yield c
-    for _ in range(150 if quick else 3000):
+    for _ in range(150 if quick else 1500):
         yield _gen_revert(rng)
-    for _ in range(80 if quick else 1500):
+    for _ in range(80 if quick else 800):
         yield _gen_remove(rng)
-    for i in range(40 if quick else 800):
+    for i in range(40 if quick else 400):
         yield _gen_merge(rng, CMDS[i % 4])
-    for _ in range(8 if quick else 150):
+    for _ in range(8 if quick else 60):
         yield _gen_uncommit(rng)
 
 
